@@ -96,6 +96,16 @@ def run_batch(case, R):
         if rng.random() < 0.1:
             outs[int(rng.integers(0, n))] = base
         progs = {k: float(v) for k, v in zip(names, outs)}
+        integer_typed = bool(rng.random() < 0.12)
+        if integer_typed:
+            # whole-number outcomes and baseline given as integers (Python or numpy): explicit interaction outcomes are still real numbers
+            base = int(rng.integers(-1, 4))
+            ityp = int if rng.random() < 0.5 else np.int64
+            progs = {k: ityp(base + int(d)) for k, d in zip(names, rng.integers(-3, 4, size=n))}
+            outs = np.array([float(v) for v in progs.values()])
+            if ityp is np.int64 and rng.random() < 0.5:
+                base = np.int64(base)
+            R.count("covouts_with_integer_typed_outcomes")
         inter = str(rng.choice(["additive", "nested", "random"]))
         # explicit interactions on a random subset of combinations
         imp = None
@@ -110,6 +120,8 @@ def run_batch(case, R):
                         explicit[c] = base - float(rng.uniform(0, 3))
                     else:
                         explicit[c] = base + float(rng.uniform(-3, 3))
+                    if integer_typed:
+                        explicit[c] = float(base) + float(rng.integers(-5, 6)) / 2.0
                     if rng.random() < 0.15:
                         explicit[c] = base  # antagonistic programmes: the combination is exactly back at the baseline (zero delta)
             if explicit:
